@@ -740,3 +740,57 @@ class IobufStart:
         return (len(_trace) == 2 and _trace[0] == ("read_struct_field", "sv", "iobuf_size", x, y)
                 and _trace[1] == ("read_vcpu_struct_field", "iobuf", x, y, p)
                 and result[0] == g_base and result[1] == g_first and seq_len(result[2]) == 0)
+
+
+# ---- SystemInfo.links / cores / ethernet_connected_chips: one element (fragments) - what the machine model is built from ----------------
+@contract("rig/machine_control/machine_controller.py::SystemInfo.links@forbody:1")
+class SystemInfoLinkStep:
+    """one working link of one responding chip is reported under exactly that chip's coordinates"""
+    properties = ("C14",)
+    params = dict(x=TInt(0, 255), y=TInt(0, 255), link=TInt(0, 5))
+    fragment_result = ()
+    fragment_head = "for link in chip_info.working_links:"
+    yields = TTuple(TInt(), TInt(), TInt(0, 5))
+    options = {"no_merge": True}
+
+    def native(x):
+        raise __import__("pyvc.replay", fromlist=["OutsideHarness"]).OutsideHarness()
+
+    def ensures_this_link_of_this_chip(x, y, link, _yielded):
+        return len(_yielded) == 1 and _yielded[0] == (x, y, link)
+
+
+@contract("rig/machine_control/machine_controller.py::SystemInfo.cores@forbody:1")
+class SystemInfoCoreStep:
+    """one core of one responding chip is reported with exactly that chip's coordinates, its own number and its own state"""
+    properties = ("C14",)
+    params = dict(x=TInt(0, 255), y=TInt(0, 255), p=TInt(0, 17), state=TInt(0, 15))
+    fragment_result = ()
+    fragment_head = "for p, state in enumerate(chip_info.core_states):"
+    yields = TTuple(TInt(), TInt(), TInt(), TInt())
+    options = {"no_merge": True}
+
+    def native(x):
+        raise __import__("pyvc.replay", fromlist=["OutsideHarness"]).OutsideHarness()
+
+    def ensures_this_core_of_this_chip_with_its_state(x, y, p, state, _yielded):
+        return len(_yielded) == 1 and _yielded[0] == (x, y, p, state)
+
+
+@contract("rig/machine_control/machine_controller.py::SystemInfo.ethernet_connected_chips@forbody:0")
+class SystemInfoEthernetStep:
+    """a responding chip is reported as Ethernet connected - with its own coordinates and its own address - exactly when its
+    Ethernet link is up"""
+    properties = ("C14", "C18")
+    params = dict(xy=TTuple(TInt(0, 255), TInt(0, 255)), chip_info=TRec("ChipInfo", ethernet_up=_TBool14(), ip_address=TInt()))
+    fragment_result = ()
+    fragment_head = "for xy, chip_info in six.iteritems(self):"
+    yields = TTuple(TTuple(TInt(), TInt()), TInt())
+    options = {"no_merge": True}
+
+    def native(x):
+        raise __import__("pyvc.replay", fromlist=["OutsideHarness"]).OutsideHarness()
+
+    def ensures_listed_iff_up_with_its_own_address(xy, chip_info, _yielded):
+        return (implies(chip_info.ethernet_up, len(_yielded) == 1 and _yielded[0] == (xy, chip_info.ip_address))
+                and implies(not chip_info.ethernet_up, len(_yielded) == 0))
